@@ -376,17 +376,45 @@ def t10_magic(run, fx, floors=True):
                    "lists all three: the bare sfnt reader, the collection member reader, the format sniffing and any container that validates "
                    "its flavor accept the same fonts")
     n = 0
+    import guards
     for b in fx.bodies:
         if b.exp:
             continue
+        # magic numbers a value is tested against, per tested value: arms of a `match`, or a chain of `==` comparisons
+        groups = {}
+        prov = None
         for bi, blk in enumerate(b.blocks):
             t = blk["t"]
-            if t["k"] != "switch" or t.get("dty") != "u32" or not b.reachable(bi):
+            if t["k"] != "switch" or not b.reachable(bi):
                 continue
-            vals = {v for v, _ in t["arms"]}
-            hit = vals & set(SFNT_MAGICS)
-            if not hit:
+            if t.get("dty") == "u32":
+                vals = {v for v, _ in t["arms"]}
+                if vals & set(SFNT_MAGICS):
+                    prov = prov or sym.Prov(b)
+                    g = groups.setdefault(sym.norm(sym.strip(prov.op(t["discr"]))), [set(), t])
+                    g[0] |= vals
+        # `v == MAGIC` comparisons, wherever their result goes (a branch, or a flag tested later)
+        eq_groups = {}
+        for bi, blk in enumerate(b.blocks):
+            if not b.reachable(bi):
                 continue
+            for st in blk["s"]:
+                rv = st.get("rv") or {}
+                if st.get("k") == "assign" and rv.get("k") == "bin" and rv.get("bop") in ("Eq", "Ne") and rv.get("aty") == "u32":
+                    prov = prov or sym.Prov(b)
+                    x, y = sym.strip(prov.op(rv["a"])), sym.strip(prov.op(rv["b"]))
+                    for a, c in ((x, y), (y, x)):
+                        k = c[1] if c[0] == "c" else ((fx.const(c[1]) or {}).get("val") if c[0] == "uneval" else None)
+                        if isinstance(k, int) and not isinstance(k, bool) and k in SFNT_MAGICS:
+                            g = eq_groups.setdefault(sym.norm(a), [set(), st])
+                            g[0].add(k)
+        for key_, (vals, st) in eq_groups.items():
+            # 0x00010000 on its own is also a version number (maxp 1.0): a chain of comparisons is a flavour decision when it names
+            # 'true' or 'OTTO'
+            if vals & {0x74727565, 0x4F54544F}:
+                g = groups.setdefault(key_, [set(), st])
+                g[0] |= vals
+        for key_, (vals, t) in groups.items():
             n += 1
             missing = set(SFNT_MAGICS) - vals
             if missing:
